@@ -121,6 +121,12 @@ func checkC10(c *Ctx) {
 		c.asRule("C06-R3", "C10-R6", func() { c06Once(c, p) })
 		c.asRule("C06-R12", "C10-R8", func() { checkEventQueuesNeverClosed(c, p, "C06-R12") })
 		checkEventPayloadOwnsMemory(c, p, "C10-R9")
+		c.Rule("C10-R11", "posting does not write into the caller's event: in PostEvent and PostEventWait the event flows into the queue only (stamping an unstamped event races with every other goroutine holding it)")
+		c.Expect("C10-R11", 2)
+		checkPostLeavesEventAlone(c, p, "C10-R11")
+		c.Rule("C10-R12", "a snapshot from GetContents stays as it was once SetSize has detached it: the bytes of a simulated cell are built in memory made for this drawing (nil or a fresh slice first, then appends), never in the array the cell had before")
+		c.Expect("C10-R12", 1)
+		checkSimBytesStartFresh(c, p, "C10-R12")
 		c.asRule("C05-R3", "C10-R10", func() { c05Pipeline(c, p) })
 	}
 	if c.Tier == "thorough" {
